@@ -124,6 +124,19 @@ def accepted (f : JobFacts) : Bool := f.addRet == some true
 def mayBeGone (f : JobFacts) : Bool := f.closedNil || f.closeCalled || f.maybePurged || f.maybeRejected
 
 -- ===================================================================== C01
+/-- at rest with every queue empty and nothing executing, an accepted job whose handle still reads
+    Created/Queued can never run any more: it was lost -/
+def droppedAtRest (tr : List Obs) (b : Book) (e : EndInfo) : List Viol :=
+  if !e.quiescent || e.crashed || b.crashed then [] else
+  let qsum := tr.foldl (fun n o => match o with | .fqueue _ m => n + m | _ => n) (0 : Int)
+  let haveQ := tr.any (fun o => match o with | .fqueue .. => true | _ => false)
+  if !haveQ || qsum != 0 || b.inflight != 0 then [] else
+  tr.foldl (fun vs o => match o with
+    | .fjob k (some st) =>
+      if (st == .created || st == .queued) && (b.job k).addRet == some true
+      then vs ++ [s!"accepted job {k} is lost: not pending, not closed, never run (status {repr st}, all queues empty)"] else vs
+    | _ => vs) []
+
 namespace C01
 /-- exactly-once: never twice, never a rejected job, never a job cancelled before it started;
     at a quiescent end with a running worker every accepted, un-cancelled, un-purged job ran. -/
@@ -153,7 +166,7 @@ def atEnd (p : Params) (b : Book) (fin : Option Final) (e : EndInfo) : List Viol
 
 def check (p : Params) (tr : List Obs) (e : EndInfo) : List Viol :=
   let (_, b, vs) := foldCheck () onEvent tr
-  vs ++ atEnd p b (finalOf tr) e
+  vs ++ atEnd p b (finalOf tr) e ++ droppedAtRest tr b e
 end C01
 
 -- ===================================================================== C02
@@ -352,8 +365,22 @@ def onEvent (s : St) (b : Book) (o : Obs) (_ : Book) : St × List Viol :=
   | .crash m => (s, [s!"process crashed: {m}"])
   | _ => (s, [])
 
+/-- at rest with every queue empty and nothing executing, a job whose handle still reads Created/Queued
+    was removed from its queue without being cancelled: silently dropped -/
+def dropped (tr : List Obs) (b : Book) (e : EndInfo) : List Viol :=
+  if !e.quiescent || e.crashed || b.crashed then [] else
+  let qsum := tr.foldl (fun n o => match o with | .fqueue _ m => n + m | _ => n) (0 : Int)
+  let haveQ := tr.any (fun o => match o with | .fqueue .. => true | _ => false)
+  if !haveQ || qsum != 0 || b.inflight != 0 then [] else
+  tr.foldl (fun vs o => match o with
+    | .fjob k (some st) =>
+      if (st == .created || st == .queued) && (b.job k).addRet == some true
+      then vs ++ [s!"job {k} is neither pending nor closed at rest (status {repr st}, all queues empty): silently dropped"] else vs
+    | _ => vs) []
+
 def check (_ : Params) (tr : List Obs) (e : EndInfo) : List Viol :=
-  (foldCheck ({} : St) onEvent tr).2.2 ++ (if e.crashed then ["process crashed"] else [])
+  let (_, b, vs) := foldCheck ({} : St) onEvent tr
+  vs ++ (if e.crashed then ["process crashed"] else []) ++ dropped tr b e
 end C10
 
 -- ===================================================================== C16
